@@ -180,7 +180,8 @@ def documented_predicates(ctx):
     repo = ctx.repo
     mod = repo.mod("types")
     out = {}
-    Base = type("Base", (), {"method": lambda self: None})
+    Super = type("Super", (), {})
+    Base = type("Base", (Super,), {"method": lambda self: None})
     Sub = type("Sub", (Base,), {})
     Other = type("Other", (), {})
     # a virtual subclass: issubclass says yes although the class is not in the MRO (ABC.register, __subclasshook__)
@@ -193,7 +194,23 @@ def documented_predicates(ctx):
     for f in mod.funcs.values():
         if f.parent is not None or f.cls is not None or len(f.params) != 2 or f.name not in ("Exactly", "StrictSubclass", "HasMethod"):
             continue
-        genv = {en.name: ORDER, to.name: lambda a, b: ("ordered-like", a, b), "TypeRelationship": lambda order=None, supertype=None, subtype=None, **k: Record(order=order, supertype=supertype, subtype=subtype)}
+        from ..metainterp import HostFn
+
+        # a value-dependent type bound by Base: the subtype test lets Base and its subclasses in ("might match"),
+        # the order function ranks it below its bound
+        Dep = Record(label="Dependent[Base, c]", __is_supertype__=HostFn(lambda other: isinstance(other, type) and issubclass(other, Base)))
+
+        def plain_order(a, b):
+            """the order of two plain classes (what the order function answers for them)"""
+            if a is b:
+                return "SAME"
+            if b is Dep:
+                return "MORE" if issubclass(a, Base) or issubclass(Base, a) else "NONE"
+            if a is Dep:
+                return "LESS" if issubclass(b, Base) or issubclass(Base, b) else "NONE"
+            return "LESS" if issubclass(a, b) else "MORE" if issubclass(b, a) else "NONE"
+
+        genv = {en.name: ORDER, to.name: plain_order, "TypeRelationship": lambda order=None, supertype=None, subtype=None, **k: Record(order=order, supertype=supertype, subtype=subtype)}
         funcs = {n: g.node for n, g in mod.funcs.items() if g.parent is None and g.cls is None and g is not f and not g.node.decorator_list}
         hi = HostInterp({}, Record(), {}, globals_env=genv, classes={}, functions=funcs)
 
@@ -205,8 +222,8 @@ def documented_predicates(ctx):
 
         bad = None
         if f.name == "Exactly":
-            r_same, r_sub, r_other = run(Base, Base), run(Sub, Base), run(Other, Base)
-            for what, r, want_order, want_super in (("the class itself", r_same, "LESS", True), ("a subclass", r_sub, ("ordered-like", Base, Sub), False), ("an unrelated class", r_other, ("ordered-like", Base, Other), False)):
+            r_same, r_sub, r_other, r_super, r_dep = run(Base, Base), run(Sub, Base), run(Other, Base), run(Super, Base), run(Dep, Base)
+            for what, r, want_order, want_super in (("the class itself", r_same, "LESS", True), ("a subclass", r_sub, plain_order(Base, Sub), False), ("an unrelated class", r_other, plain_order(Base, Other), False), ("a superclass", r_super, plain_order(Base, Super), False), ("a value-dependent type bound by the class", r_dep, plain_order(Base, Dep), False)):
                 if not isinstance(r, Record) or r.order != want_order or bool(r.supertype) != want_super:
                     bad = bad or f"for {what} Exactly[Base] answers order={getattr(r, 'order', r)!r}, supertype={getattr(r, 'supertype', None)!r} (expected {want_order!r}, {want_super})"
         elif f.name == "StrictSubclass":
